@@ -64,12 +64,20 @@ def corr_cases(ctx):
         c = S.normalise_case(dict(w))
         yield "witness", {"text": c["text"], "mode": c["mode"], "exts": list(c["exts"]), "backend": c["backend"],
                           "kw": dict(c.get("kw") or {})}
+    dyn_exts = list(L.STATIC_EXTS) + list(G.DYN_EXTS)
+    for text in G.SEED_DYNAMIC:
+        for backend in ("docutils", "sphinx"):
+            yield "dyn-seed", {"text": text, "mode": "myst", "exts": dyn_exts, "backend": backend}
+    for i in range(ctx.budget(250, 2000, 2000)):
+        exts = [e for e in L.STATIC_EXTS if rng.random() < 0.6] + [e for e in G.DYN_EXTS if rng.random() < 0.8]
+        backend = "sphinx" if rng.random() < 0.4 else "docutils"
+        yield "dyn", {"text": G.gen_dynamic_doc(rng, "myst", exts), "mode": "myst", "exts": exts, "backend": backend, "kw": {}}
     n = ctx.budget(700, 6000, 6000)
     depth = 6 if ctx.tier == "quick" and not ctx.deep else 10
     for i in range(n):
         if i % 2 == 0:
             c = S.normalise_case(S.gen_case(rng, ctx.tier, i))
-            exts = [e for e in c["exts"] if e in L.STATIC_EXTS]
+            exts = [e for e in c["exts"] if e in L.STATIC_EXTS or e in G.DYN_EXTS]
             yield "stress", {"text": c["text"], "mode": c["mode"], "exts": exts, "backend": c["backend"],
                              "kw": dict(c.get("kw") or {})}
         else:
